@@ -714,6 +714,29 @@ func encStream(c *ctxT, n int) [][]byte {
 		for j := 0; j < k; j++ {
 			items = append(items, randItem(r, r.PickInt(0, 1, 2, 3), false))
 		}
+		if i%16 == 5 {
+			// more than 255 distinct symbols on one Encoder (two-byte ids), then references to high ids
+			big := &item{k: kMap}
+			for q := 0; q < 262+r.Intn(10); q++ {
+				big.m = append(big.m, [2]*item{{k: kStr, s: []byte(fmt.Sprintf("s%03d", q))}, {k: kUint, u: uint64(q % 7)}})
+			}
+			ref := &item{k: kMap}
+			for _, q := range []int{0, 127, 254, 255, 256, 260} {
+				ref.m = append(ref.m, [2]*item{{k: kStr, s: []byte(fmt.Sprintf("s%03d", q))}, {k: kBool, b: true}})
+			}
+			items = append([]*item{big}, items...)
+			items = append(items, ref)
+			k = len(items)
+		}
+		if i%16 == 9 {
+			// long keys: two- and one-byte length precision of a symbol definition
+			lk := &item{k: kMap}
+			for _, n := range []int{255, 256, 257} {
+				lk.m = append(lk.m, [2]*item{{k: kStr, s: bytes.Repeat([]byte{byte('A' + n%7)}, n)}, {k: kNil}})
+			}
+			items = append(items, lk, lk)
+			k = len(items)
+		}
 		out, ends, err := encodeSeq(o, items)
 		cj := map[string]interface{}{"format": "binc", "opts": fmt.Sprintf("%+v", o), "items": coqItems(items), "seed_index": i}
 		if err != nil {
